@@ -49,9 +49,17 @@ func NewJSONParser(cdc codec.Codec) (*JSONParser, error) {
 
 // Parse returns the orbiter payload from a JSON formatted
 // string or an error.
-func (p *JSONParser) Parse(jsonString string) (*core.Payload, error) {
+func (p *JSONParser) Parse(jsonString string) (payload *core.Payload, err error) {
+	// The payload is untrusted input and the codec panics on some malformed nested messages
+	// (e.g. null elements of repeated fields): turn that into a parsing error.
+	defer func() {
+		if r := recover(); r != nil {
+			payload, err = nil, core.ErrParsingPayload.Wrapf("malformed payload: %v", r)
+		}
+	}()
+
 	var jsonData map[string]any
-	err := json.Unmarshal([]byte(jsonString), &jsonData)
+	err = json.Unmarshal([]byte(jsonString), &jsonData)
 	if err != nil {
 		return nil, core.ErrParsingPayload.Wrapf("not a valid json string: %s", err.Error())
 	}
